@@ -8,8 +8,10 @@ Model of internal/xds/balancer/outlierdetection
   callcounter.go     : clear, swap
   subconn_wrapper.go : eject / uneject, handleEjection / handleUnejection, RegisterHealthListener,
                        updateSubConnHealthState, clearHealthListener
-as it is (numEndpointsEjected is NOT adjusted when an ejected endpoint is removed, an endpoint
-that is already ejected is ejected again, the two percentage comparisons are done in binary64).
+as it is (after the repairs 7e59030 / da1d093 / 239aef5: removing an ejected endpoint decrements
+numEndpointsEjected, the max_ejection_percent check is the integer comparison
+ejected*100 >= percent*endpoints, an endpoint that is already ejected is skipped by both loops; the
+failure-percentage comparison is still done in binary64).
 
 Times are Int milliseconds of a virtual clock.  Everything that runs on the `run` goroutine is
 folded into the operation that caused it (state at quiescence).  The two sources of
@@ -231,7 +233,8 @@ def ejectEp (ts : Int) (id : Nat) (l : Loop) : Loop :=
     says which endpoints (by id) are in endpointsToConsider and satisfy the criterion. -/
 def algStep (k : AlgK) (a : Alg) (maxPct : Nat) (ts : Int) (out : Nat → Bool) (l : Loop) (id : Nat) : Loop :=
   if !out id then l
-  else if pctGE l.nEj.toNat l.eps.length maxPct then { l with evs := l.evs ++ [Ev.umax k] }
+  else if ((findEp l.eps id).map Ep.ejected).getD false then l      -- already ejected: `continue`
+  else if decide ((maxPct : Int) * (l.eps.length : Int) ≤ l.nEj * 100) then { l with evs := l.evs ++ [Ev.umax k] }
   else
     let d := l.draws.headD 0
     let l := { l with draws := l.draws.tail }
@@ -335,8 +338,8 @@ def insertEp (e : Ep) : List Ep → List Ep
 
 def newEp (id gen : Nat) : Ep := { id := id, gen := gen, actS := 0, actF := 0, inS := 0, inF := 0, ej := none, mult := 0, sws := [] }
 
-/-- the endpoint bookkeeping of UpdateClientConnState: add unknown ids, drop the others (the
-    counter is left alone). -/
+/-- the endpoint bookkeeping of UpdateClientConnState: add unknown ids (the others are dropped by
+    the filter in `updateCore`) -/
 def addEps (ids : List Nat) (eps : List Ep) (gen : Nat) : List Ep × Nat :=
   ids.foldl (fun (acc : List Ep × Nat) id =>
     if (findEp acc.1 id).isSome then acc else (insertEp (newEp id acc.2) acc.1, acc.2 + 1)) (eps, gen)
@@ -351,15 +354,17 @@ def onNoop (eps : List Ep) : List Ep × Int × List Cmd :=
 def updateCore (s : St) (c : Cfg) (ids : List Nat) : St × List Cmd :=
   let (eps1, gen) := addEps ids s.eps s.nextGen
   let eps2 := eps1.filter fun e => ids.contains e.id
+  -- a removed endpoint that is ejected no longer counts
+  let nEj := s.nEj - (trueCount (eps1.filter fun e => !ids.contains e.id) : Int)
   if c.noop then
     let (eps3, k, cmds) := onNoop eps2
-    ({ s with cfg := some c, eps := eps3, nextGen := gen, nEj := s.nEj - k, timerStart := none, timer := none }, cmds)
+    ({ s with cfg := some c, eps := eps3, nextGen := gen, nEj := nEj - k, timerStart := none, timer := none }, cmds)
   else
     match s.timerStart with
     | none =>
-      ({ s with cfg := some c, eps := eps2.map Ep.clear, nextGen := gen, timerStart := some s.now, timer := some (s.now + c.interval) }, [])
+      ({ s with cfg := some c, eps := eps2.map Ep.clear, nextGen := gen, nEj := nEj, timerStart := some s.now, timer := some (s.now + c.interval) }, [])
     | some t0 =>
-      ({ s with cfg := some c, eps := eps2, nextGen := gen, timer := some (s.now + max 0 (c.interval - (s.now - t0))) }, [])
+      ({ s with cfg := some c, eps := eps2, nextGen := gen, nEj := nEj, timer := some (s.now + max 0 (c.interval - (s.now - t0))) }, [])
 
 /-- `NewSubConn` by the child for address `id` (+ the queued ejection update). -/
 def newScw (s : St) (id : Nat) : St :=
